@@ -256,9 +256,11 @@ def handleC03Tree (name r c call : String) (out : List String) : String :=
         let tol : Float := if lam.any (fun x => x.abs > 8) then 1e-2 else 1e-6
         l.length == post.length && (l.zip post).all (fun p => (p.1 - p.2).abs ≤ tol * (1 + p.2.abs))
     let signsOK := syndromeOK h (lam.map (· ≤ 0))
-    let run := if signsOK then some (Verdict.success (lam.map (fun (x : Float) => decide (x ≤ 0))) 0, minAbs 1e9 lam)
-               else if layered then treeLayer tanhClamp h n n (Store.blank (0 : Float) h.rows) lam (minAbs 1e9 lam)
-               else treeFlood tanhClamp h lam n n (BPRef.initEmitted (A := floatIdeal) h lam) lam (minAbs 1e9 lam)
+    -- the zero-iteration test reads the channel LLRs themselves (an exact 0.0 is "≤ 0" on both sides, no rounding involved): only the
+    -- LLRs computed by iterations enter the robustness margin
+    let run := if signsOK then some (Verdict.success (lam.map (fun (x : Float) => decide (x ≤ 0))) 0, 1e9)
+               else if layered then treeLayer tanhClamp h n n (Store.blank (0 : Float) h.rows) lam 1e9
+               else treeFlood tanhClamp h lam n n (BPRef.initEmitted (A := floatIdeal) h lam) lam 1e9
     match run with
     | none => "BADLINE c03 tree model-panic"
     | some (v, m) =>
